@@ -339,7 +339,62 @@ def c16_e2e(R):
                 want = got
             if got != [(a + 1) * 2 + (a + 1) + 10 for a in (0, 3, -5)]:
                 bad = bad or (pname, f"partition {pname}: top(0,3,-5) = {got}, expected {[(a + 1) * 2 + (a + 1) + 10 for a in (0, 3, -5)]}")
+        # a library that is recompiled and stored again under the same name: a client compiled afterwards is typed against (and linked with)
+        # the CURRENT file -- the loader of the typing pass keeps nothing from an earlier compilation of this process
+        hist = None
+        try:
+            def store(name, src):
+                with contextlib.redirect_stdout(io.StringIO()):
+                    r = Compiler.Compiler().Compile(src)
+                with open(name + ".nslir", "wb") as fh:
+                    pickle.dump(r.IRModule, fh)
+                return r
+
+            def run_client(src, fname, **args):
+                r = store("clientv", src)
+                lk = LinearIR.Linker(loader=LinearIR.FilesystemModuleLoader())
+                lk.AddModule(LinearIR.FilesystemModuleLoader().Load("clientv"))
+                return VM.VirtualMachine(lk.Link()).Invoke(fname, **args)
+
+            store("libv", "function scale(int x) -> int { return (x * 2); }")
+            g1 = run_client('import "libv";\nexport function main(int a) -> int { return scale(a); }', "main", a=3)
+            store("libv", "function scale(int x) -> int { return (x * 2); }\nfunction scale(float x) -> float { return (x + 0.25); }")
+            g2 = run_client('import "libv";\nexport function mainf(float x) -> float { return scale(x); }', "mainf", x=1.5)
+            store("libv", "function scale(int x) -> int { return (x + 1000); }")
+            g3 = run_client('import "libv";\nexport function main(int a) -> int { return scale(a); }', "main", a=3)
+            if (g1, g2, g3) != (6, 1.75, 1003):
+                hist = f"library stored three times under one name, a client compiled after each: main(3), mainf(1.5), main(3) = {(g1, g2, g3)}, expected (6, 1.75, 1003)"
+        except BaseException as e:
+            if isinstance(e, KeyboardInterrupt):
+                raise
+            hist = f"library stored three times under one name, a client compiled after each: raised {type(e).__name__}: {str(e)[:120]}"
     finally:
         os.chdir(cwd)
         shutil.rmtree(tmp, ignore_errors=True)
     R.bounded("C16.e2e", "nslc.py", bad is None, len(partitions), detail="all partitions agree with the single module" if not bad else bad[1])
+    R.bounded("C16.e2e.recompiled-library", "nsl.passes.ComputeTypes::ComputeTypeVisitor.v_Module", hist is None, 3, detail=hist or "3 versions of a library, clients see the current one",
+              replay=script("""
+                  import io, contextlib, os, pickle, tempfile
+                  from nsl import Compiler, LinearIR, VM
+                  os.chdir(tempfile.mkdtemp(prefix='nslverif-c16-'))
+                  def store(name, src):
+                      with contextlib.redirect_stdout(io.StringIO()):
+                          r = Compiler.Compiler().Compile(src)
+                      pickle.dump(r.IRModule, open(name + '.nslir', 'wb'))
+                  def run_client(src, fname, **args):
+                      store('clientv', src)
+                      lk = LinearIR.Linker(loader=LinearIR.FilesystemModuleLoader())
+                      lk.AddModule(LinearIR.FilesystemModuleLoader().Load('clientv'))
+                      return VM.VirtualMachine(lk.Link()).Invoke(fname, **args)
+                  try:
+                      store('libv', 'function scale(int x) -> int { return (x * 2); }')
+                      g1 = run_client('import "libv";\\nexport function main(int a) -> int { return scale(a); }', 'main', a=3)
+                      store('libv', 'function scale(int x) -> int { return (x * 2); }\\nfunction scale(float x) -> float { return (x + 0.25); }')
+                      g2 = run_client('import "libv";\\nexport function mainf(float x) -> float { return scale(x); }', 'mainf', x=1.5)
+                      store('libv', 'function scale(int x) -> int { return (x + 1000); }')
+                      g3 = run_client('import "libv";\\nexport function main(int a) -> int { return scale(a); }', 'main', a=3)
+                      print((g1, g2, g3), 'expected (6, 1.75, 1003)')
+                      if (g1, g2, g3) != (6, 1.75, 1003): print('REPLAY-CONFIRMED')
+                  except Exception as e:
+                      print('raised', type(e).__name__, e); print('REPLAY-CONFIRMED')
+                  """) if hist else None)
